@@ -34,7 +34,7 @@ CLAIMED = {
                 "(origins, created, suppressed, types, errors, required keys, validity) is compared with the model on generated pipelines every run, and every accepted pipeline is executed "
                 "with exactly the required keys (and with extras) under three dynamic oracles.",
         "note": "Models coq/Model/Inspect.v + Pipeline.v. Soundness assumes honest processors (declared created keys are written; checked dynamically). Type-flow soundness (C02_no_type_gate_failure) additionally assumes processors produce their declared output type. The initial payload's data type must suit the first data node. "
-                "Origin truthfulness assumes nodes write what they declare to create and delete what they declare to suppress (checked dynamically). That the node reported as 'context produced by node i' is the last writer is checked by the dynamic oracle only.",
+                "Origin truthfulness assumes nodes write what they declare to create and delete what they declare to suppress (checked dynamically). 'Context produced by node j' is proved to name the last node declaring the key, with no declaring or suppressing node between it and the reader, so that the resolved value is the one present right after node j ran (C02_origin_names_last_writer); that a node writes nothing it does not declare is enforced by the executor model and checked dynamically on the implementation.",
         "technique": "Coq simulation proof (abstract interpretation soundness) + generated structural facts + whole-report differential correspondence + dynamic oracles",
         "design": "DESIGN.md section 6, C02",
     },
